@@ -21,13 +21,24 @@
            compiled by sylt::compile_with_reader_to_writer with sylt's own file reader, one process per spelling of
            the main file: bare name inside the project, ./, relative from the parent, paths with .. segments, absolute;
      seed  declarations with equal-but-not-identical keys (a member written 2-3 times), >= 256 fresh hash keys each.
+     line  (SyltDetLayout) the LAYOUT of a declaration: blob / enum declarations, blob literals and case expressions whose
+           members share lines in six ways (everything on one line ... one member per line), k of n members wrong in eleven
+           ways; >= 64 fresh hash keys each;
+     pair  (SyltDetLayout) a library of 360 programs that SHARE file names, namespace ids, global names and a misspelt name
+           but differ in which near names exist / what the name is / whether it resolves: every target fresh, t,t, after each
+           of its 11 one-axis neighbours, after two neighbours, after a far program - one process per history; accepted
+           targets deliver their Lua with -o into ONE file per process (run_file_with_reader), so a longer output precedes a
+           shorter one. TLC must find HistoryIndependence violated for a "stale" implementation (an earlier DIFFERENT
+           compilation leaks into one configuration) while repetition of one input stays deterministic (RepetitionIsBlind).
    Spec-level self-test: the generator model satisfies HistoryIndependence / SpellingIndependence for an implementation
    that is a function of its input, and TLC finds the violation for a "cache", a "counter" and a "spelling" implementation.
 """
 import collections
+import concurrent.futures
 import json
 import os
 import re
+import threading
 import vlib
 
 PID = "C16"
@@ -88,7 +99,7 @@ def validate(wd, name, trace, inputs_path, universe, ev, verdicts, workers=8, ti
                  tags=("REJECT",), workers=workers, timeout=timeout, out_file=os.path.join(wd, "tlc-" + name + ".out"))
     vlib.require_tlc_ok(r, "Trace_Determinism/" + name)
     rejects = list({p["input"]: p for (_, p) in r.records}.values())  # ENABLED re-evaluates PrintT
-    cov = {k: v[1] for k, v in r.coverage.items() if k.startswith("Trace")}
+    cov = {k: v for k, v in final_coverage(r.log).items() if k.startswith("Trace")}
     if cov.get("TraceInit", 0) != len(inputs) or cov.get("TraceRun", 0) != len(recs):
         vlib.tool_error("vacuity: %s replayed %s runs of %s inputs, trace has %d of %d" % (
             name, cov.get("TraceRun"), cov.get("TraceInit"), len(recs), len(inputs)))
@@ -128,6 +139,22 @@ def sample_of(inp, recs):
             "runs": ["%s:%s:%s" % (x["process"], x["class"], x["digest"]) for x in rs]}
 
 
+def final_coverage(log):
+    """Action counts (total) of the LAST -coverage report of a TLC log: TLC prints an interim report every minute, and
+    vlib adds all reports up - on a loaded machine a run that takes longer than a minute would count its actions twice."""
+    pat = re.compile(r"^<(\w+) line \d+, col \d+ to line \d+, col \d+ of module \w+(?: \([\d ]+\))?>: (\d+):(\d+)")
+    cov = {}
+    with open(log, encoding="utf-8", errors="replace") as f:
+        for line in f:
+            if line.startswith("The coverage statistics at"):
+                cov = {}
+                continue
+            m = pat.match(line)
+            if m:
+                cov[m.group(1)] = cov.get(m.group(1), 0) + int(m.group(3))
+    return cov
+
+
 def action_count(log, name):
     """-coverage count of an action whose line carries a location suffix (vlib's pattern expects none)."""
     pat = re.compile(r"^<%s line \d+, col \d+ to line \d+, col \d+ of module \w+(?: \([\d ]+\))?>: (\d+):(\d+)" % name)
@@ -162,7 +189,8 @@ def spec_selftest(wd, ev):
 # ------------------------------------------------------------------------------------------------------------
 # The context dimensions: histories, long histories, spellings of the main file, hash seeds (SyltDetContext)
 
-CTX_KINDS = ("hist", "long", "path", "seed")
+CTX_KINDS = ("hist", "long", "path", "seed", "line", "pair")
+LINE_SEEDS, LINE_SEEDS_THOROUGH = 64, 40
 SEEDS_QUICK, SEEDS_THOROUGH = 256, 512
 
 
@@ -173,6 +201,10 @@ def ctx_args(kind, tier):
         return ["400", "2500", "all"] if tier == "quick" else ["1200", "6000", "all"]
     if kind == "path":
         return ["all"]
+    if kind == "line":
+        return [str(LINE_SEEDS), "260"] if tier == "quick" else [str(LINE_SEEDS_THOROUGH), "all"]
+    if kind == "pair":
+        return ["60"] if tier == "quick" else ["all"]
     return [str(SEEDS_QUICK), "126"] if tier == "quick" else [str(SEEDS_THOROUGH), "all"]
 
 
@@ -186,6 +218,11 @@ def ctx_signature(kind, grp, rej, progs):
         return "C16|long-history|%s|%s|%s" % ("no-std" if p["nostd"] else "std", cls, rej["what"])
     if kind == "path":
         return "C16|spelling|%s|shape=%d|%s" % (rej["ctx_b"]["spelling"], grp["case"]["shape"], rej["what"])
+    if kind == "line":
+        return "C16|layout|%s|layout=%d|%s" % (grp["case"]["fam"], grp["case"]["layout"], rej["what"])
+    if kind == "pair":
+        p = progs[rej["input"] - 1]
+        return "C16|shared-names|%s|kind=%d|site=%d|%s|%s" % (p["expect"], p["kind"], p["site"], rej["ctx_b"]["cfg"], rej["what"])
     return "C16|hash-seed|%s|m=%d|%s" % (grp["case"]["fam"], grp["case"]["m"], rej["what"])
 
 
@@ -201,6 +238,11 @@ def ctx_describe(kind, grp, rej, progs):
     if kind == "path":
         return "disk project %s: `cd %s; sylt %s` and `cd %s; sylt %s` differ in %s" % (
             grp["spec"], a["cwd"], a["arg"], b["cwd"], b["arg"], rej["what"])
+    if kind == "pair":
+        hist = lambda c: ("fresh" if not c["before"] else "after " + ", ".join("x:%d" % i for i in c["before"])) + " (%s)" % c["cfg"]
+        return "program x:%d %s compiled %s and %s (one process each) differs in %s" % (
+            rej["input"], json.dumps({k: v for k, v in progs[rej["input"] - 1].items() if k not in ("source_files", "id")}, sort_keys=True),
+            hist(a), hist(b), rej["what"])
     return "input %s (%s): run %d and run %d under different hash keys differ in %s (%d distinct results in %d runs)" % (
         grp["spec"], grp["case"]["fam"], a["run"], b["run"], rej["what"], rej["distinct"], grp["n"])
 
@@ -209,18 +251,39 @@ def record_ctx(kind, outdir, args, env=None):
     os.makedirs(outdir, exist_ok=True)
     vlib.harness("c16", ["ctx", kind, outdir] + list(args), env=env)
     rd = lambda f: vlib.read_ndjson(os.path.join(outdir, f))
-    return rd(kind + ".ndjson"), rd(kind + "-groups.ndjson"), rd(kind + "-full.ndjson"), rd("progs.ndjson")
+    return rd(kind + ".ndjson"), rd(kind + "-groups.ndjson"), rd(kind + "-full.ndjson"), rd(progs_file(kind))
 
 
-def validate_ctx(wd, name, kind, outdir, data, ev, verdicts, workers=4, timeout=1500):
+def progs_file(kind):
+    return "xprogs.ndjson" if kind == "pair" else "progs.ndjson"
+
+
+def tlc_ctx(wd, name, kind, outdir, workers=4, timeout=3000):
+    return vlib.tlc("MC_TraceDetContext", cfg="MC_TraceDetContext.cfg", wd=wd,
+                    env={"TRACE": os.path.join(outdir, kind + ".ndjson"), "GROUPS": os.path.join(outdir, kind + "-groups.ndjson"),
+                         "PROGS": os.path.join(outdir, progs_file(kind)), "KIND": kind},
+                    tags=("REJECT",), workers=workers, timeout=timeout, out_file=os.path.join(wd, "tlc-" + name + ".out"))
+
+
+_recorder_lock = threading.Lock()
+
+
+def prefetch_ctx(wd, prefix, kind, args, env=None, workers=2):
+    """Recorder + TLC of one context universe in directories of its own. The TLC runs overlap (two or three at a time),
+    the recorders do not (each of them uses every core and, in the thorough tier, a lot of memory)."""
+    outdir = os.path.join(wd, prefix + "-" + kind)
+    with _recorder_lock:
+        data = record_ctx(kind, outdir, args, env=env)
+    return outdir, data, tlc_ctx(outdir, prefix + "-" + kind, kind, outdir, workers=workers)
+
+
+def validate_ctx(wd, name, kind, outdir, data, ev, verdicts, workers=4, timeout=1500, r=None):
     recs, groups, fulls, progs = data
-    r = vlib.tlc("MC_TraceDetContext", cfg="MC_TraceDetContext.cfg", wd=wd,
-                 env={"TRACE": os.path.join(outdir, kind + ".ndjson"), "GROUPS": os.path.join(outdir, kind + "-groups.ndjson"),
-                      "PROGS": os.path.join(outdir, "progs.ndjson"), "KIND": kind},
-                 tags=("REJECT",), workers=workers, timeout=timeout, out_file=os.path.join(wd, "tlc-" + name + ".out"))
+    if r is None:
+        r = tlc_ctx(wd, name, kind, outdir, workers=workers, timeout=timeout)
     vlib.require_tlc_ok(r, "Trace_DetContext/" + name)
     rejects = list({p["g"]: p for (_, p) in r.records}.values())  # ENABLED re-evaluates PrintT
-    cov = {k: v[1] for k, v in r.coverage.items() if k.startswith("Trace")}
+    cov = {k: v for k, v in final_coverage(r.log).items() if k.startswith("Trace")}
     if cov.get("TraceInit", 0) != len(groups) or cov.get("TraceRun", 0) != len(recs):
         vlib.tool_error("vacuity: %s replayed %s runs of %s groups, trace has %d of %d" % (
             name, cov.get("TraceRun"), cov.get("TraceInit"), len(recs), len(groups)))
@@ -245,7 +308,13 @@ def validate_ctx(wd, name, kind, outdir, data, ev, verdicts, workers=4, timeout=
             replay["program"] = {k: v for k, v in progs[rej["input"] - 1].items() if k != "source_files"}
             replay["history_a"] = [progs[i - 1]["name"] for i in rej["ctx_a"].get("before", [])]
             replay["history_b"] = [progs[i - 1]["name"] for i in rej["ctx_b"].get("before", [])]
-        if kind == "seed":
+        if kind == "pair":
+            replay["program"] = {k: v for k, v in progs[rej["input"] - 1].items() if k != "source_files"}
+            replay["history_a"] = ["x:%d" % i for i in rej["ctx_a"].get("before", [])]
+            replay["history_b"] = ["x:%d" % i for i in rej["ctx_b"].get("before", [])]
+            replay["sources_of_the_histories"] = {"x:%d" % i: progs[i - 1]["source_files"]
+                                                  for i in set(rej["ctx_a"].get("before", []) + rej["ctx_b"].get("before", []))}
+        if kind in ("seed", "line"):
             replay["digest_counts"] = grp.get("digest_counts")
         if shown[sig] <= 3:
             replay["files"] = grp.get("files") or progs[rej["input"] - 1]["source_files"]
@@ -309,6 +378,58 @@ def ctx_guards(kind, data, tier):
             vlib.tool_error("vacuity: disk projects whose reference spelling does not get the intended class: %s" % wrong)
         m = {"projects": len(groups), "spellings": sorted({r["spelling"] for r in recs}),
              "accepted_projects": sum(1 for g in groups if g["case"]["expect"] == "ok")}
+    elif kind == "line":
+        n = min(g["n"] for g in groups)
+        if n < 32:
+            vlib.tool_error("vacuity: fewer than 32 hash seeds per layout case")
+        wrong = [g["spec"] for g in groups if recs[g["first"] - 1]["class"] != g["case"]["expect"]]
+        if wrong:
+            vlib.tool_error("vacuity: layout cases that do not get the class they are built for: %s" % wrong[:20])
+        fams = collections.defaultdict(lambda: {"cases": 0, "two_erroneous_members_on_one_line": 0, "layouts": set()})
+        for g in groups:
+            f = fams[g["case"]["fam"]]
+            f["cases"] += 1
+            f["layouts"].add(g["case"]["layout"])
+            if g["case"]["same"] >= 2:
+                f["two_erroneous_members_on_one_line"] += 1
+        if len(fams) != 13:
+            vlib.tool_error("vacuity: layout families missing: %s" % sorted(fams))
+        thin = [f for f, v in fams.items() if v["two_erroneous_members_on_one_line"] < 3 or len(v["layouts"]) < 5]
+        if thin and len(groups) >= 200:
+            vlib.tool_error("vacuity: families with < 3 cases that put two erroneous members on one line / < 5 layouts: %s" % thin)
+        m = {"cases": len(groups), "seeds_per_case": n,
+             "cases_with_two_erroneous_members_on_one_line": sum(v["two_erroneous_members_on_one_line"] for v in fams.values()),
+             "per_family": {f: {"cases": v["cases"], "two_erroneous_members_on_one_line": v["two_erroneous_members_on_one_line"],
+                                "layouts": sorted(v["layouts"])} for f, v in sorted(fams.items())}}
+    elif kind == "pair":
+        lens = collections.Counter()
+        cfgs = collections.Counter()
+        longer_first = 0
+        fresh_size = {r["prog"]: r["size"] for r in recs if r["step"] == 1}     # first compilation of a process
+        for g in groups:
+            rs = recs[g["first"] - 1:g["first"] - 1 + g["n"]]
+            if rs[0]["class"] != g["case"]["expect"]:
+                vlib.tool_error("vacuity: library program %s does not get the class it is built for" % g["spec"])
+            for r in rs:
+                if r["step"] == 1 and r["class"] != progs[r["prog"] - 1]["expect"]:
+                    vlib.tool_error("vacuity: library program x:%d does not get the class it is built for" % r["prog"])
+                lens[len(r["before"])] += 1
+                cfgs[r["cfg"]] += 1
+            # -o FILE: an accepted program written after another accepted program of the same process
+            for a, b in zip(rs, rs[1:]):
+                if (b["step"] == a["step"] + 1 and b["cfg"] == "ofile" and a["class"] == "ok" and b["class"] == "ok"
+                        and fresh_size[a["prog"]] > fresh_size[b["prog"]]):
+                    longer_first += 1
+        if not all(lens.get(k) for k in (0, 1, 2, 3)):
+            vlib.tool_error("vacuity: histories of length 0..3 must all occur: %s" % dict(lens))
+        if not cfgs.get("ofile") or not cfgs.get("writer"):
+            vlib.tool_error("vacuity: both output configurations must occur: %s" % dict(cfgs))
+        if longer_first < 5:
+            vlib.tool_error("vacuity: fewer than 5 compilations write their Lua with -o over the LONGER Lua of the compilation before")
+        m = {"targets": len(groups), "library": len(progs), "processes": sum(1 for r in recs if r["step"] == 1) ,
+             "compilations_by_history_length": {str(k): v for k, v in sorted(lens.items())},
+             "compilations_by_output_configuration": dict(cfgs),
+             "shorter_lua_written_with_o_over_a_longer_one": longer_first}
     else:
         n = min(g["n"] for g in groups)
         fams = collections.defaultdict(collections.Counter)
@@ -340,29 +461,53 @@ def context_spec_selftest(wd, ev):
                              "invariants": ["Determinism", "HistDeterminism", "HistoryIndependence", "SpellingIndependence",
                                             "ContextFormsFollow", "SeenIsImageOfHist", "TwoFormsAgree"],
                              "assume": "ContextUniverseWellFormed"}}
-    for mode, inv in (("cache", "HistoryIndependence"), ("counter", "HistoryIndependence"), ("spelling", "SpellingIndependence")):
-        r2 = vlib.tlc("MC_DetContext", cfg="MC_DetContext_%s.cfg" % mode, wd=wd, workers=1, timeout=600,
-                      out_file=os.path.join(wd, "tlc-MC_DetContext_%s.out" % mode))
+    modes = (("cache", "HistoryIndependence"), ("counter", "HistoryIndependence"), ("spelling", "SpellingIndependence"))
+    with concurrent.futures.ThreadPoolExecutor(max_workers=4) as ex:
+        futs = {mode: ex.submit(vlib.tlc, "MC_DetContext", cfg="MC_DetContext_%s.cfg" % mode, wd=wd, workers=1, timeout=600,
+                                out_file=os.path.join(wd, "tlc-MC_DetContext_%s.out" % mode)) for mode, _ in modes}
+        futs["stale"] = ex.submit(vlib.tlc, "MC_DetLayout", cfg="MC_DetLayout_stale.cfg", wd=wd, workers=1, timeout=600,
+                                  out_file=os.path.join(wd, "tlc-MC_DetLayout_stale.out"))
+        futs["blind"] = ex.submit(vlib.tlc, "MC_DetLayout", cfg="MC_DetLayout_blind.cfg", wd=wd, workers=1, timeout=600,
+                                  out_file=os.path.join(wd, "tlc-MC_DetLayout_blind.out"))
+        res = {k: f.result() for k, f in futs.items()}
+    for mode, inv in modes:
+        r2 = res[mode]
         if r2.timed_out or r2.invariant_violated != inv:
             vlib.tool_error("spec-level negative control: a %s implementation must violate %s, TLC said: %s" % (
                 mode, inv, r2.invariant_violated or (r2.error or "no error")[:500]))
         out[mode + "_mode"] = {"violated": r2.invariant_violated, "states_until_violation": r2.distinct}
+    # SyltDetLayout: the "stale" implementation class (+ ASSUME LayoutUniverseWellFormed in both runs)
+    r3 = res["stale"]
+    if r3.timed_out or r3.invariant_violated != "HistoryIndependence":
+        vlib.tool_error("spec-level negative control: a stale implementation must violate HistoryIndependence, TLC said: %s" % (
+            r3.invariant_violated or (r3.error or "no error")[:500]))
+    r4 = res["blind"]
+    vlib.require_tlc_ok(r4, "SyltDetLayout: RepetitionIsBlind for the stale implementation")
+    if action_count(r4.log, "LStep") == 0:
+        vlib.tool_error("vacuity: spec action LStep never taken")
+    ev.add("states", r4.distinct)
+    ev.add("transitions", r4.generated)
+    out["stale_mode"] = {"violated": r3.invariant_violated, "states_until_violation": r3.distinct,
+                         "holds_nevertheless": ["RepetitionIsBlind", "SeenIsImageOfHist", "TwoFormsAgree", "ContextFormsFollow"],
+                         "states": r4.distinct, "assume": "LayoutUniverseWellFormed"}
     ev.set(context_spec_model=out)
 
 
 NEG_CTX_ARGS = {"hist": ["required", "7,8,15,20"], "long": ["200", "2000", "2,5"], "path": ["1,2,3,20,40,60"],
-                "seed": ["200", "ids:1,2,3,4,5,6,7,8,9"]}
+                "seed": ["200", "ids:1,2,3,4,5,6,7,8,9"], "line": ["32", "ids:1,15,120,1300,2650,4000"], "pair": ["ids:1,5,105"]}
 
 
 def context_negative_controls(wd, tier):
     """A recorder that salts one digest of some groups: TLC must reject every salted group."""
     n = 0
+    with concurrent.futures.ThreadPoolExecutor(max_workers=3) as ex:
+        futs = {kind: ex.submit(prefetch_ctx, wd, "neg", kind, NEG_CTX_ARGS[kind], {"C16_STUB": "salt"}, 1) for kind in CTX_KINDS}
+        pre = {kind: f.result() for kind, f in futs.items()}
     for kind in CTX_KINDS:
-        outdir = os.path.join(wd, "neg-" + kind)
-        data = record_ctx(kind, outdir, NEG_CTX_ARGS[kind], env={"C16_STUB": "salt"})
+        outdir, data, r = pre[kind]
         neg_v = vlib.Verdicts(PID, control=True)
         neg_v.known = []
-        rej = validate_ctx(wd, "negative-control-" + kind, kind, outdir, data, vlib.Evidence(PID, tier, "exploration"), neg_v, workers=2)
+        rej = validate_ctx(wd, "negative-control-" + kind, kind, outdir, data, vlib.Evidence(PID, tier, "exploration"), neg_v, r=r)
         salted = {g["g"] for g in data[1] if g.get("salted")}
         if not salted:
             vlib.tool_error("negative control (%s): nothing was salted" % kind)
@@ -382,7 +527,8 @@ def run(ctx):
     if ctx.replay and json.load(open(ctx.replay))["replay"].get("kind") in CTX_KINDS:
         rp = json.load(open(ctx.replay))["replay"]
         kind, key = rp["kind"], rp["spec"].split(":")[1]
-        args = {"hist": ["all", key], "long": ["1200", "6000", key], "path": [key], "seed": ["2048", "ids:" + key]}[kind]
+        args = {"hist": ["all", key], "long": ["1200", "6000", key], "path": [key], "seed": ["2048", "ids:" + key],
+                "line": ["512", "ids:" + key], "pair": ["ids:" + key]}[kind]
         outdir = os.path.join(wd, "replay-" + kind)
         data = record_ctx(kind, outdir, args)
         validate_ctx(wd, "replay", kind, outdir, data, ev, verdicts, workers=2)
@@ -441,13 +587,15 @@ def run(ctx):
 
     # 3b. conformance: the context universes (histories, long histories, spellings, hash seeds)
     ctx_meas, ctx_inputs, ctx_rejected = {}, 0, 0
+    with concurrent.futures.ThreadPoolExecutor(max_workers=2) as ex:
+        futs = {kind: ex.submit(prefetch_ctx, wd, "ctx", kind, ctx_args(kind, tier)) for kind in CTX_KINDS}
+        pre = {kind: f.result() for kind, f in futs.items()}
     for kind in CTX_KINDS:
-        outdir = os.path.join(wd, "ctx")
-        data = record_ctx(kind, outdir, ctx_args(kind, tier))
-        rej = validate_ctx(wd, kind, kind, outdir, data, ev, verdicts)
+        outdir, data, r = pre[kind]
+        rej = validate_ctx(wd, kind, kind, outdir, data, ev, verdicts, r=r)
         ctx_meas[kind] = ctx_guards(kind, data, tier)
         ctx_rejected += len(rej)
-        ctx_inputs += len(data[3]) if kind == "hist" else (0 if kind == "long" else len(data[1]))
+        ctx_inputs += len(data[3]) if kind in ("hist", "pair") else (0 if kind == "long" else len(data[1]))
         if kind == "hist":
             g = data[1][7]
             samples.append({"spec": g["spec"], "kind": "hist", "program": data[3][g["key"] - 1]["name"],
@@ -459,10 +607,16 @@ def run(ctx):
             samples.append({"spec": g["spec"], "kind": "path", "files": sorted(g["files"]),
                             "runs": ["cd %s; sylt %s: %s:%s" % (x["cwd"], x["arg"], x["class"], x["digest"])
                                      for x in data[0][g["first"] - 1:g["first"] - 1 + g["n"]]]})
-        elif kind == "seed":
-            g = data[1][0]
-            samples.append({"spec": g["spec"], "kind": "seed", "case": g["case"], "main_source": g["files"]["main.sy"],
+        elif kind in ("seed", "line"):
+            g = data[1][0] if kind == "seed" else next((x for x in data[1] if x["case"]["same"] >= 2 and x["case"]["layout"] >= 2), data[1][0])
+            samples.append({"spec": g["spec"], "kind": kind, "case": g["case"], "main_source": g["files"]["main.sy"],
                             "digest_counts": g["digest_counts"]})
+        elif kind == "pair":
+            g = data[1][0]
+            samples.append({"spec": g["spec"], "kind": "pair", "program": g["case"],
+                            "main_source": data[3][g["key"] - 1]["source_files"]["main.sy"],
+                            "runs": ["after %s (%s): %s:%s" % (["x:%d" % i for i in x["before"]], x["cfg"], x["class"], x["digest"])
+                                     for x in data[0][g["first"] - 1:g["first"] + 7] if x["prog"] == g["key"]]})
 
     # 4. negative control: a recorder that lies about one run of every fifth input
     t_n, i_n = os.path.join(wd, "neg.ndjson"), os.path.join(wd, "neg-inputs.ndjson")
@@ -509,9 +663,14 @@ def run(ctx):
                 "history; long = %d histories of 400/2500 (thorough 1200/6000) compilations in one thread; path = %d disk projects "
                 "(rooted and relative imports of one module, sub-folders, exports.sy, 3 error kinds) x %d spellings of the main file / "
                 "working directories, one process each, errors compared with file names normalised; seed = %d declarations with a "
-                "member written 2-3 times (quick: 126, stratified), each compiled under %d (thorough %d) fresh hash keys" % (
+                "member written 2-3 times (quick: 126, stratified), each compiled under %d (thorough %d) fresh hash keys; "
+                "line = %d layout cases of SyltDetLayout (%d families x 9 (n,k) x %d layouts x 4 orders x 2 rotations; quick: 20 per "
+                "family), %d (thorough %d) fresh hash keys each; pair = %d name-sharing programs, every target (quick: 60, stratified by the near "
+                "names it defines) in %d process histories (fresh into a writer and with -o; t,t; after each of %d one-axis neighbours; "
+                "after two neighbours; after a far program), accepted targets through -o into one file per process" % (
                     usize, sizes["progs"], sizes["shapes"], sizes["warm"], sizes["long"], sizes["disk"], sizes["spellings"],
-                    sizes["seed_cases"], SEEDS_QUICK, SEEDS_THOROUGH),
+                    sizes["seed_cases"], SEEDS_QUICK, SEEDS_THOROUGH, sizes["line_cases"], sizes["line_fams"], sizes["layouts"],
+                    LINE_SEEDS, LINE_SEEDS_THOROUGH, sizes["xprogs"], sizes["pair_shapes"], sizes["x_neighbours"]),
            distinct_nontrivial=len(nontrivial) + len(corpus_nontrivial) + ctx_inputs,
            programs=len(inputs) + len(cinputs) + ctx_inputs,
            context_universes=ctx_meas,
@@ -524,7 +683,9 @@ def run(ctx):
                                        for f, v in sorted(stats["families"].items()) if f.startswith("rej-")}},
            inputs_rejected_by_tlc=len(rejected_inputs) + len(crejects) + ctx_rejected,
            known_findings_hit=verdicts.known_hits)
-    ev.assume("on-disk projects are compiled through sylt::compile_with_reader_to_writer with sylt::read_file (what the sylt binary "
+    ev.assume("-o FILE is driven through sylt::run_file_with_reader (what the binary calls) with an in-memory reader; all compilations "
+              "of one process write to the same path, the Lua compared is what the file holds afterwards",
+              "on-disk projects are compiled through sylt::compile_with_reader_to_writer with sylt::read_file (what the sylt binary "
               "calls) in a child process whose cwd and argument are the spelling; the binary's own argument parsing is not exercised",
               "for on-disk projects the spelling of file names inside errors may follow the spelling of the main file: error kinds, "
               "lines, columns, order and texts are compared after colour codes are removed and every *.sy path is normalised",
